@@ -23,7 +23,7 @@ RUNS = {
     "C10": {"quick": 30000, "thorough": 500000},
     "C06": {"quick": 30000, "thorough": 900000},
     "C11": {"quick": 16000, "thorough": 300000},
-    "C05": {"quick": 10000, "thorough": 160000},
+    "C05": {"quick": 8000, "thorough": 160000},
 }
 
 RULES = {}
